@@ -696,6 +696,32 @@ def run_c16(chk, binary, sc, tier):
     jobs, recs, obs = run_layouts(chk, binary, sc, tier, False, True, False)
     for j in jobs:
         check_positions(chk, recs[j["id"]], obs[j["id"]], j, True)
+    # characters the lexer has no rule for (zero width space, word joiner, byte order mark - what pasted text carries) in front of the
+    # offending declaration on its line: the lexer reports and skips them, every column behind them still counts them
+    zj = [j for j in jobs if recs[j["id"]]["errtag"] and not obs[j["id"]]["parse"]["ok"]][::7][:400 if tier == "quick" else 3000]
+    zdocs = []
+    for n, j in enumerate(zj):
+        r = recs[j["id"]]
+        exp = [t for t in r["tagged"] if t[0] == r["errtag"]]
+        if not exp:
+            continue
+        ln, col = exp[0][1], exp[0][2]
+        tl = r["text"].split("\n")
+        if ln >= len(tl) or "\r" in tl[ln][:col]:
+            continue
+        k = len(tl[ln]) - len(tl[ln].lstrip(" \t"))
+        if k > col:
+            continue
+        z = ["\u200b", "\u2060", "\ufeff", "\u200b\u2060"][n % 4]
+        tl[ln] = tl[ln][:k] + z + tl[ln][k:]
+        zdocs.append(({"id": "Z%d" % n, "text": "\n".join(tl), "modular": r["modular"]}, dict(r, text="\n".join(tl), tagged=[[t[0], t[1], t[2] + (len(z) if t[1] == ln and t[2] >= k else 0)] + t[3:] for t in r["tagged"]]), j))
+    if zdocs:
+        zi, zo = sc.path("z.in.ndjson"), sc.path("z.out.ndjson")
+        write_ndjson(zi, [d[0] for d in zdocs])
+        run_harness(binary, ["dsl-parse", "-in", zi, "-out", zo])
+        for (d, r2, j), o in zip(zdocs, read_ndjson(zo)):
+            check_positions(chk, r2, o, dict(j, id=d["id"]), True)
+        chk.add("documents_with_unlexable_characters_before_the_error", len(zdocs))
     # the position function itself: every lexeme of valid documents against the real lexer's token trace
     vjobs0, vrecs0, _ = run_layouts(chk, binary, sc, "quick", True, False, False)
     token_validate(chk, binary, sc, vrecs0, 1500 if tier == "quick" else 6000)
